@@ -342,6 +342,7 @@ class Executor:
         self.call_cache = {}
         self.cache_hits = 0
         self.deadline = None
+        self.cut_points = set()
 
     # ---------------------------------------------------------------- solver
     def lit(self, c):
@@ -897,6 +898,11 @@ class Executor:
             block = fr.fn.blocks[fr.bb]
             if fr.si == 0:
                 self.fn_cover.setdefault(fr.fn.name, set()).add(fr.bb)
+                if self.cut_points and (fr.fn.name, fr.bb) in self.cut_points:
+                    if st.aux.get('cut_armed'):
+                        self.finish(results, 'cut', st, None)
+                        return
+                    st.aux['cut_armed'] = True
             ins = block[fr.si]
             k = ins[0]
             if k == 'assign':
